@@ -199,6 +199,13 @@ def run(model: Model, rep: Report, tier: str) -> None:
     (rep.proven if ok else rep.refuted)("R7.5", construct(f, "conflict-test"), "" if ok else "a conflict is a subscript and a piece of evidence with the same name and different values", loc(f))
     # inherited
     c06.r6_4(model, rep)
+    # line 6 subscripts every district by its Markov pillow: the pillow's own definition (C14 R14.2) is part of this property's cone
+    from . import c14
+    sub14 = Report(rep.property_id, rep.tier)
+    c14.run(model, sub14, tier)
+    for ob in sub14.obligations:
+        if ob.rule == "R14.2" and ("get_markov_pillow" in ob.construct or "districts" in ob.construct or "subgraph" in ob.construct):
+            rep.obligations.append(ob)
     sub = Report(rep.property_id, rep.tier)
     c18.run(model, sub, tier)
     rep.obligations.extend(sub.obligations)
